@@ -199,7 +199,7 @@ impl Prop for C17 {
         true
     }
     fn rule(&self) -> String {
-        "every Gregorian date 0001-01-01..=9999-12-31 is enumerated once (distinct by construction) in both tiers; every date is non-trivial (each is compared field by field, weekday and printed text included, with the integer tabular-calendar oracle)".into()
+        "every Gregorian date 0001-01-01..=9999-12-31 is enumerated once (distinct by construction) in both tiers; every date is non-trivial (each is compared field by field, weekday and printed text included, with the integer tabular-calendar oracle) Every conversion is preceded by the conversion of a date 2^k days away (k = 8..21).".into()
     }
     fn assumptions(&self) -> Vec<String> {
         vec![
